@@ -6,6 +6,8 @@
      library DECODERS (SnssaiToModels, RequestedNssaiToModels, LadnToModels): the input octets were produced by the
        specification's encoders or at random; when the specification's decoder accepts them the library must return
        that value; when the NSSAI decoder rejects them (malformed lengths) the library must report an error.
+   Every result is logged twice: read at once (ob / osn / odnn / on) and read again from the retained return values
+   after later calls (hob / hosn / hodnn / hon, hc = number of those calls); the two readings must agree.
    Total: a mismatch prints <<"MISMATCH", l, op, class>> and the cursor moves on.  Inputs outside the domain
    (models that are no valid value) give no verdict and are counted. *)
 EXTENDS AreaLists, Json, TLC
@@ -114,13 +116,17 @@ NoteOf(e) ==
     [] e.op = "TaiListToNas" /\ ~e.panic /\ TaisOK(e.tai) /\ Len(e.ob) >= 1 /\ (e.ob[1] \div 32) % 4 = 1 -> "tailist-uses-type-01"
     [] OTHER -> ""
 
+\* A result is a value: what the caller reads from the returned slices / strings / structs after further calls of the
+\* same function (with other arguments) and of other functions were made must be what it read when the call returned.
+Held(e) == e.hob = e.ob /\ e.hosn = e.osn /\ e.hodnn = e.odnn /\ e.hon = e.on
 TInit == l = 1 /\ TLCSet(2, 0) /\ TLCSet(3, 0) /\ TLCSet(4, 0) /\ TLCSet(5, 0)
 TNext ==
   /\ l <= Len(TraceLog)
   /\ LET e == TraceLog[l]
          j == Judge(e)
          n == NoteOf(e)
-     IN /\ CASE j = OK -> TLCSet(4, TLCGet(4) + 1)
+     IN /\ CASE j = OK /\ Held(e) -> TLCSet(4, TLCGet(4) + 1)
+             [] j = OK -> PrintT(<<"MISMATCH", l, e.op, "result-changed-after-return">>)
              [] j = SKIP -> TLCSet(5, TLCGet(5) + 1)
              [] OTHER -> PrintT(<<"MISMATCH", l, e.op, j>>)
         /\ IF n = "" \/ TLCGet(3) >= 5 THEN TRUE ELSE PrintT(<<"MISMATCH", l, "NOTE", n>>) /\ TLCSet(3, TLCGet(3) + 1)
